@@ -22,6 +22,9 @@ added construct has a behaviour that a necessary condition of the property exclu
  W5  override of a socketserver / http.server hook that runs on the serve loop's error path and can itself raise.
  W6  a mutable container that outlives a call (module level, class level, created by a decorator) and is written from
      the property's slice.
+ W8  a method defined by a package base class (a mixin's override) that an earlier standard-library base of the same class
+     also defines: the method resolution order takes the standard-library version.
+ W9  `return` / `break` / `continue` inside a `finally` clause: the exception in flight is discarded.
  W7  a lambda / nested function created in a loop that reads the loop variable and is not called in the same iteration
      (late binding: when it runs, every such closure acts on the last item).
 
@@ -42,13 +45,15 @@ EXPLANATION = (
     "(__len__/__bool__ on truth-tested configuration objects, __exit__ returning a true value, __str__/__repr__ returning a "
     "non-string, read hooks that write); W4 no decorator with shared mutable state wraps a function the rules anchor on; W5 "
     "an override of the serve loop's error hook cannot raise; W6 no new container that outlives a call is written from the "
-    "slice; W7 no closure created in a loop keeps reading the loop variable after its iteration (late binding).")
+    "slice; W7 no closure created in a loop keeps reading the loop variable after its iteration (late binding); W8 no override provided by a package base class is hidden by a standard-library base listed before it; W9 no finally clause leaves with return / break / continue (which discards the exception in flight).")
 
 RULE_METHODS = {"W1": "decorator resolution + call-site argument classification", "W2": "reaching definitions + CFG reachability between consumers",
                 "W3": "class-body scan against vlib/known_functions.json + return / store classification",
                 "W4": "decorator resolution + closure-cell scan", "W5": "override scan against the stdlib hook table + E4 may-raise",
                 "W6": "store scan of module / class / decorator level containers",
-                "W7": "free-variable analysis of closures created in loops + use classification"}
+                "W7": "free-variable analysis of closures created in loops + use classification",
+                "W9": "syntax scan of finally clauses",
+                "W8": "left-to-right linearisation of the bases against the names the standard-library bases define"}
 
 SRV = "SimpleJSONRPCServer"
 # entry points of each property: (module, qualified-name prefix)
@@ -293,13 +298,17 @@ def check(ck):
     sl = slice_of(prog, prop)
     ck.stat("closed_world_slice_functions", len(sl)) if hasattr(ck, "stat") else None
     errors = []
-    for part in (_w1_memo, _w2_iterators, _w6_containers, _w7_closures):
+    for part in (_w1_memo, _w2_iterators, _w6_containers, _w7_closures, _w9_finally_exits):
         try:
             part(ck, sl)
         except AnalysisError as ex:
             errors.append(ex)
     from rules import closed_world_classes as cwc
     cwc.check(ck, sl, errors)
+    try:
+        cwc.check_mro(ck, sl)
+    except AnalysisError as ex:
+        errors.append(ex)
     if errors:
         raise errors[0]
 
@@ -566,3 +575,33 @@ def _w7_closures(ck, sl):
                                "being called in the same iteration: closures see the variable, not its value at creation - when they finally run, "
                                "all of them act on the last item of the loop" % (dump(fn)[:60], sorted(free)[0]), fi.loc(fn))
     ck.ok(rule, "closures created inside loops of the slice", "%d capture a loop variable" % n, "")
+
+
+# ---------------------------------------------------------------------------
+# W9 return / break / continue inside a finally clause
+# ---------------------------------------------------------------------------
+def _w9_finally_exits(ck, sl):
+    rule = ck.prop + ".W9"
+    n = 0
+    for fi in sl.values():
+        for t in ast.walk(fi.node):
+            if not (isinstance(t, ast.Try) and t.finalbody):
+                continue
+            n += 1
+            bad = None
+            for st in t.finalbody:
+                for x in ast.walk(st):
+                    if isinstance(x, (ast.FunctionDef, ast.Lambda)):
+                        continue
+                    if isinstance(x, ast.Return):
+                        bad = x
+                    elif isinstance(x, (ast.Break, ast.Continue)):
+                        # only when the loop it leaves encloses the try (a loop inside the finally clause is its own business)
+                        inner_loops = [l for s2 in t.finalbody for l in ast.walk(s2) if isinstance(l, (ast.For, ast.While)) and any(y is x for y in ast.walk(l))]
+                        if not inner_loops:
+                            bad = x
+            ck.require(bad is None, rule, "%s: finally clause at line %s" % (q.fn(fi), t.lineno), "falls through",
+                       "the finally clause leaves with `%s`: an exception raised in the protected block (or a return value on its way out) is "
+                       "discarded there - failures inside the block are silently turned into a normal completion" % (dump(bad)[:40] if bad is not None else ""),
+                       fi.loc(bad if bad is not None else t))
+    ck.ok(rule, "finally clauses in the slice", "%d examined" % n, "")
